@@ -15,10 +15,16 @@
 package main
 
 import (
+	"bytes"
 	"context"
+	"encoding/json"
 	"fmt"
 	"math/rand"
 	"os"
+	"os/exec"
+	"strconv"
+	"strings"
+	"sync"
 	"sync/atomic"
 	"time"
 
@@ -296,7 +302,105 @@ func eq(a, b []int64) bool {
 	return true
 }
 
+// ---- overlapping decodes, forced: procs = 2, the filter callback of the first node of block 0
+// holds decoder A inside Decode until decoder B has decoded block 1 completely (or 300 ms have
+// passed).  Runs in a child process: decoders that share state may crash instead of answering.
+func overlapChild(seed int64) {
+	f := overlapFile(seed)
+	var bDone int32
+	gate := make(chan struct{})
+	var once sync.Once
+	lastOfB := f.ID(1, f.Items[1].N-1)
+	sc := osmpbf.New(context.Background(), pipesup.NewReader(f), 2)
+	sc.FilterNode = func(n *osm.Node) bool {
+		id := int64(n.ID)
+		if id == f.ID(0, 0) {
+			select {
+			case <-gate:
+			case <-time.After(300 * time.Millisecond):
+			}
+		}
+		if id == lastOfB && atomic.CompareAndSwapInt32(&bDone, 0, 1) {
+			go func() { time.Sleep(2 * time.Millisecond); once.Do(func() { close(gate) }) }()
+		}
+		return true
+	}
+	var ids []int64
+	for sc.Scan() {
+		ids = append(ids, pipesup.ObjID(sc.Object()))
+	}
+	e := pipesup.ErrCode(sc.Err())
+	sc.Close()
+	b, _ := json.Marshal(map[string]interface{}{"ids": ids, "err": e})
+	fmt.Println("OVERLAP-RESULT " + string(b))
+}
+
+func overlapFile(seed int64) *pipesup.File {
+	rng := wire.Rng(seed)
+	f := &pipesup.File{Header: true, Wide: true}
+	for b := 0; b < 6; b++ {
+		f.Items = append(f.Items, pipesup.Item{Kind: pipesup.KBlock, N: 2 + rng.Intn(4)})
+	}
+	f.Build()
+	return f
+}
+
+// overlapBad: the child answered, but not with the file's elements
+func overlapBad(c *wire.Case) bool {
+	d := c.Desc.(map[string]interface{})
+	got, _ := d["delivered"].([]int64)
+	exp, _ := d["expected"].([]int64)
+	e, _ := d["err"].(int64)
+	return !eq(got, exp) || e != 0
+}
+
+func overlapCase(seed int64) *wire.Case {
+	f := overlapFile(seed)
+	cmd := exec.Command(os.Args[0], "--overlap-child", strconv.FormatInt(seed, 10))
+	var out, errb bytes.Buffer
+	cmd.Stdout, cmd.Stderr = &out, &errb
+	done := make(chan error, 1)
+	cmd.Start()
+	go func() { done <- cmd.Wait() }()
+	var runErr error
+	select {
+	case runErr = <-done:
+	case <-time.After(20 * time.Second):
+		cmd.Process.Kill()
+		runErr = fmt.Errorf("child did not finish within 20 s")
+	}
+	var res struct {
+		IDs []int64 `json:"ids"`
+		Err int64   `json:"err"`
+	}
+	got := false
+	for _, l := range strings.Split(out.String(), "\n") {
+		if strings.HasPrefix(l, "OVERLAP-RESULT ") {
+			got = json.Unmarshal([]byte(strings.TrimPrefix(l, "OVERLAP-RESULT ")), &res) == nil
+		}
+	}
+	c := &wire.Case{Class: "overlap"}
+	c.Int(5).Int(2).Bool(false)
+	itemsToks(c, f)
+	c.Ints(res.IDs).Int(res.Err)
+	desc := map[string]interface{}{"procs": 2, "items": f.Items, "ids": "object j of block b has id b*100000+j+1",
+		"schedule":  "the filter callback of the first node of block 0 holds its decoder until the other decoder has finished block 1",
+		"delivered": res.IDs, "err": res.Err, "expected": f.Expected()}
+	if !got {
+		first := strings.SplitN(strings.TrimSpace(errb.String()), "\n", 2)[0]
+		c.OracleFail = fmt.Sprintf("the scan crashed or hung with two decoders inside Decode at the same time: %v: %s", runErr, first)
+		desc["child_stderr_head"] = first
+	}
+	c.Desc = desc
+	return c
+}
+
 func main() {
+	if len(os.Args) == 3 && os.Args[1] == "--overlap-child" {
+		seed, _ := strconv.ParseInt(os.Args[2], 10, 64)
+		overlapChild(seed)
+		return
+	}
 	a := wire.ParseArgs()
 	rng := wire.Rng(a.Seed)
 	w := wire.NewWriter("C02", a.Seed, a.Tier)
@@ -313,6 +417,32 @@ func main() {
 	nCut := int(60 * a.Scale)
 	if a.Tier == "thorough" {
 		nFull, nCut = nFull*12, nCut*12
+	}
+	// overlapping decodes first, in child processes: if two decoders cannot be inside Decode at
+	// the same time (shared decoder state), the in-process classes below would crash this process
+	// and lose the observation, so they are skipped then
+	unsafeDecoders := false
+	for i := 0; i < 3; i++ {
+		c := overlapCase(a.Seed*53 + int64(i))
+		w.Add(c)
+		w.Count("overlap")
+		if c.OracleFail != "" || !c.Trivial && overlapBad(c) {
+			unsafeDecoders = true
+		}
+	}
+	if unsafeDecoders {
+		for k := 0; k < 2; k++ { // canaries: the error code of the first overlap case altered
+			d := w.Cases[0].Clone()
+			d.Canary, d.Class, d.OracleFail = 1, "canary", ""
+			d.Toks[len(d.Toks)-1] = uint64(6 + 2*k)
+			w.Add(d)
+		}
+		w.Notes = append(w.Notes, "overlapping decodes misbehave: the in-process classes were skipped")
+		if err := w.Flush(a.Out, "Verif.C02.Check", 120); err != nil {
+			fmt.Fprintln(os.Stderr, err)
+			os.Exit(1)
+		}
+		return
 	}
 	var first *wire.Case
 	for i := 0; i < nFull+nCut; i++ {
